@@ -71,6 +71,7 @@ inductive Obs
   | idle (i : Nat)
   | close (i : Nat)
   | stall (i : Nat)       -- the reader of stream i stops calling Recv: it no longer keeps up, nothing is owed to it
+  | estab (i : Nat)       -- the subscription of stream i is KNOWN to exist before the next write: the harness saw its listener(s) in the snapshot `Bus.Send` took for that write (first.go), so the write's event was handed to it
   | resume (i : Nat)      -- the reader of stream i has read what was waiting for it and keeps up again: the stream has to have ENDED on the register (`quiesce`)
   | bad (cls : String)    -- panics, errors on Get/open, stream ended: never produced by the model
 
@@ -196,6 +197,10 @@ def accept (a : Acc) : Obs → Acc × Verdict
     -- "whose reader keeps up" no longer applies: every value announced from now on is an optional entry (the resource
     -- keeps only the latest value for a slow subscriber: `Slow.lean`, any subsequence may arrive later)
     ({ a with streams := setAt a.streams i fun s => { s with established := false } }, .ok)
+  | .estab i =>
+    -- an updates-only stream that has delivered nothing yet, but whose listener is on the bus: from now on every
+    -- value-changing write is owed to it, the very first one included (whatever its value: `C14_first_update_delivered`)
+    ({ a with streams := setAt a.streams i fun s => { s with established := true } }, .ok)
   | .resume i =>
     -- the reader has caught up: nothing announced during the stall is expected any more; the subscription exists (it
     -- delivered before the stall): the stream is judged again, `quiesce` requires it to have ended on the register
